@@ -74,6 +74,7 @@ Print Assumptions C10_refuted_panic.
     case implies the executable spec on the implementation's observations *)
 Theorem C10_agree_implies_spec : forall c,
   0 <= c_n c -> 1 <= c_batch c -> 1 <= c_par c -> c_kind c <> KPushIn ->
+  (o_copy c <> None -> c_kind c = KIdentity) ->     (* copy-mode cases use content-preserving transforms only *)
   agree PCeilClip c = true -> spec_ok c = true.
 Proof. exact agree_fixed_spec. Qed.
 Print Assumptions C10_agree_implies_spec.
